@@ -9,6 +9,8 @@ CONSTANTS
   AllowBad = FALSE
   AllowSplit = FALSE
   AllowRst = FALSE
+  AllowTClose = FALSE
+  AllowCRst = FALSE
   Timeout = 0
   MaxNow = 0
   DrainMode = "raw"
